@@ -10,6 +10,14 @@ NS = 'embedded_pairing::bls12_381::'
 STEP = {'miller_doubling_step': 'D', 'miller_addition_step': 'A', 'ell': 'E', 'square': 'SQ', 'conjugate': 'CJ'}
 
 
+class _Continue(Exception):
+    pass
+
+
+class _Break(Exception):
+    pass
+
+
 class Tracer:
     def __init__(self, ctx, prog, fn):
         self.ctx, self.prog, self.fn = ctx, prog, fn
@@ -103,6 +111,9 @@ class Tracer:
                         '>': int(a > b), '>=': int(a >= b), '&': a & b, '|': a | b, '>>': a >> b, '<<': a << b}[op]
             except Exception:
                 return None
+        if k == 'member' and e.get('name') == 'infinity':
+            # the identity flag of a pair member, read directly instead of through is_zero()
+            return zero_calls
         if k == 'call':
             if e.get('name') == 'bit' and e.get('this') is not None:
                 base = self.val(e['this'], zero_calls)
@@ -242,7 +253,12 @@ class Tracer:
                     self.iters += 1
                     if self.iters > 100000:
                         raise bm.AnalysisBroken('%s: loop does not terminate under constant evaluation' % self.fn['qn'])
-                    self.stmt(s['body'], group)
+                    try:
+                        self.stmt(s['body'], group)
+                    except _Continue:
+                        pass
+                    except _Break:
+                        break
                     if s.get('inc') is not None:
                         self.fx = True
                         self.val(s['inc'])
@@ -266,7 +282,16 @@ class Tracer:
                             pt = ((b.get('t') or {}).get('pointee') or {}).get('s', '')
                             grp = 'prepared' if 'PreparedPair' in pt else ('affine' if 'AffinePair' in pt else group)
                             break
-                self.stmt(s['body'], grp)
+                try:
+                    self.stmt(s['body'], grp)
+                except _Continue:
+                    pass
+                except _Break:
+                    self.problems.append(('uniform', loc_str(s), 'the loop over the pairs at %s can stop before the last pair' % loc_str(s)))
+        elif k == 'continue':
+            raise _Continue()
+        elif k == 'break':
+            raise _Break()
         elif k in ('return', 'null'):
             return
         else:
